@@ -1006,9 +1006,13 @@ func runC05Conc(c *Case, out func(string)) {
 		if i+3 < len(oldLive) {
 			hi = append([]byte(oldLive[i+3]), '!')
 		}
-		// the keys the scans must show are (also) in the active memtable: rewritten before the scans start
+		// the keys the scans must show have their latest value in the active memtable only: they are
+		// overwritten before the scans of this round start (older layers hold the previous value)
 		for j := i + 1; j < len(oldLive) && j <= i+2; j++ {
-			e.Put([]byte(oldLive[j]), ref[oldLive[j]])
+			nv := append(append([]byte{}, ref[oldLive[j]]...), byte('a'+i%26))
+			if e.Put([]byte(oldLive[j]), nv) == nil {
+				ref[oldLive[j]] = nv
+			}
 		}
 		write := func(n int) {
 			switch n % 3 {
